@@ -69,6 +69,7 @@ type GenSpec struct {
 	OversizeValue bool // also 2^28-byte values (slow)
 	ChildPct   int // probability (%) that a top-level batch mentions children; default 35
 	ReopenCfg  bool // reopen may change options
+	PersistNil bool // Store.Persist(nil, CompactionForce) while the persister is idle
 	Compaction []int // choices; nil = {0,1,2}
 	// NoChildOnly excludes batches whose top level is empty while children
 	// are mentioned (known findings F5/F11/F14).
@@ -591,7 +592,11 @@ func genHistory(t *rapid.T, spec *GenSpec) (*Program, int) {
 				wSSnap = 4
 			}
 		}
-		switch pick(t, "op", 45, 24, wHold, wRel, wReopen, wSnap, wRead, wCloseS, wIter, wIterStep, wSSnap, wEarly) {
+		wPNil := 0
+		if spec.PersistNil && p.Cfg.Backing == "store" {
+			wPNil = 4
+		}
+		switch pick(t, "op", 45, 24, wHold, wRel, wReopen, wSnap, wRead, wCloseS, wIter, wIterStep, wSSnap, wEarly, wPNil) {
 		case 0:
 			p.Ops = append(p.Ops, Op{Kind: "batch", B: g.nextBatch(t)})
 		case 1:
@@ -682,6 +687,8 @@ func genHistory(t *rapid.T, spec *GenSpec) (*Program, int) {
 			snaps = append(snaps, nextID)
 			p.Ops = append(p.Ops, Op{Kind: "ssnap", ID: nextID})
 			nextID++
+		case 12:
+			p.Ops = append(p.Ops, Op{Kind: "persistnil"})
 		case 11:
 			g.everKey = false // an early close may lose everything: the store can be empty again
 			o := Op{Kind: "reopen", Drain: false}
